@@ -34,7 +34,7 @@ func genJSONLog(t *tape.Tape, o GenOpts) *World {
 	w.Render = func(r LRec) string {
 		var parts []string
 		for i, v := range r.Vals {
-			if i == sh.IntIdx && numAsNumber && isDigits(v) {
+			if i == sh.IntIdx && numAsNumber != r.OtherType && isDigits(v) {
 				parts = append(parts, jsonStr(fn[i])+":"+v)
 			} else {
 				parts = append(parts, jsonStr(fn[i])+":"+jsonStr(v))
